@@ -76,8 +76,14 @@ def gen_bmk():
     # cross-section assembly of dvcs.DVCS.XS per formula set (hand-transcribed skeleton; the T-terms are the
     # translated ones).  target: 0 = U, 1 = L, 2 = T.  Flips and the copy of the point are the caller's business.
     body += '\n/-! DVCS.XS: wgh * PreFacSigma * (unp + in2polarization * (LP | TP)) -/\n'
+    xs_missing = []
     for cls in FORMULA_SETS:
         have = produced[cls]
+        if not all(e in have for e in ('TBH2unp', 'TINTunp', 'TDVCS2unp')):
+            # the translator rejected a term this set needs: no XS model for it (the checks fall back
+            # to the behavioural streams and report what no longer translates)
+            xs_missing.append(cls)
+            continue
         unp = ' + '.join('FS_%s_%s c m pt' % (cls, e) for e in ('TBH2unp', 'TINTunp', 'TDVCS2unp'))
         lp = ' + '.join('FS_%s_%s c m pt' % (cls, e) for e in ('TBH2LP', 'TINTLP', 'TDVCS2LP')) if 'TBH2LP' in have else None
         tp = ' + '.join('FS_%s_%s c m pt' % (cls, e) for e in ('TBH2TP', 'TINTTP', 'TDVCS2TP')) if 'TBH2TP' in have else None
@@ -121,11 +127,15 @@ def gen_bmk():
     d += '  | _ => none\n\n'
     d += 'def xsEval (set : String) (c : Consts) (m : CFFs) (pt : Pt) (target : Nat) (in2pol : Float) (weighted : Bool) : Option (Option Float) :=\n  match set with\n'
     for cls in FORMULA_SETS:
+        if cls in xs_missing:
+            continue
         d += '  | "%s" => some (XS_%s c m pt target in2pol weighted)\n' % (cls, cls)
     d += '  | _ => none\n\nend Gep.F\n'
     instantiate.write_if_changed(os.path.join(instantiate.LEAN, 'Gen', 'BmkDispatchF.lean'), d)
     M_FIELDS[:] = m_fields
     gen_sym(tk, tb, td, pt_fields, safe)
+    for cls in xs_missing:
+        rejected[(cls, 'XS')] = 'a term of the cross section was not translated'
     return dict(produced=produced, rejected=rejected, pt_fields=pt_fields, m_fields=m_fields,
                 ndefs=len(tk.defs) + len(tb.defs) + len(td.defs), kin=kin_names, dvcs=dv_names)
 
